@@ -315,7 +315,7 @@ def _post_set(kind, tolerant):
 for c in FUTURE_CLASSES:
     UNITS.append(Unit("_Future.add_done_callback[%s]" % c, "common._Future.add_done_callback", ["C02", "C04", "C03", "C01"],
                       _setup_adc(c), _post_adc, cfg=_cfg_cb, self_cls=c))
-UNITS.append(Unit("_Future._me_invoke_callbacks", "common._Future._me_invoke_callbacks", ["C02", "C12", "C18", "C04"],
+UNITS.append(Unit("_Future._me_invoke_callbacks", "common._Future._me_invoke_callbacks", ["C02", "C12", "C18", "C04", "C03", "C01"],
                   _setup_invoke("MapFuture"), _post_invoke, cfg=_cfg_invoke, self_cls="MapFuture"))
 for c, tol in (("MapFuture", False), ("PollFuture", True), ("RetryFuture", False)):
     UNITS.append(Unit("%s.set_result" % c, {"MapFuture": "map.MapFuture.set_result", "PollFuture": "poll.PollFuture.set_result",
